@@ -556,6 +556,102 @@ def cache_probes(xodr, opts, digest_hex, variants):
     return results
 
 
+def path_history(xodr, opts, token, ops, workdir):
+    """Entry paths of Network.fromFile on ONE directory with persistent state (the directory name contains dots).
+    ops: {"op": "map", "to": good|changed|changed2|absent} / {"op": "snet", "to": good|absent|version|truncate|optbyte, ...}
+         / {"op": "load", "entry": xodr|noext|snet|upper|other, "useCache", "writeCache", "opts"}.
+    The parser is stubbed: it records the path and the keyword options it was given and returns `token` (a real network,
+    so that a cache can be written from it).  Per load: directory state before, outcome, directory state after."""
+    from scenic.domains.driving.roads import Network
+    import pickle
+    snet0 = os.path.splitext(xodr)[0] + Network.pickledExt
+    good_snet = open(snet0, "rb").read()
+    good_map = open(xodr, "rb").read()
+    shutil.rmtree(workdir, ignore_errors=True)
+    os.makedirs(workdir)
+    base = os.path.join(workdir, os.path.splitext(os.path.basename(xodr))[0])
+    mpath, spath = base + ".xodr", base + Network.pickledExt
+    with open(mpath, "wb") as f:
+        f.write(good_map)
+    orig = Network.__dict__["fromOpenDrive"]
+    calls = []
+
+    def stub(cls, path, **kw):
+        calls.append((os.fspath(path), kw))
+        return token
+    maps = {"good": good_map, "changed": good_map + b"<!-- c -->", "changed2": good_map[:-1] + b" \n"}
+    payload_ok = False
+    out = []
+
+    def rd(p):
+        return open(p, "rb").read() if os.path.exists(p) else None
+
+    def out_changed(b, a, sp):
+        return a is not None and (b != a or int(os.stat(sp).st_mtime) != 1_000_000_000)
+    try:
+        Network.fromOpenDrive = classmethod(stub)
+        for op in ops:
+            if op["op"] == "map":
+                if op["to"] == "absent":
+                    if os.path.exists(mpath):
+                        os.remove(mpath)
+                else:
+                    with open(mpath, "wb") as f:
+                        f.write(maps[op["to"]])
+                continue
+            if op["op"] == "snet":
+                to = op["to"]
+                if to == "absent":
+                    if os.path.exists(spath):
+                        os.remove(spath)
+                    payload_ok = False
+                    continue
+                b = good_snet
+                payload_ok = True
+                if to == "version":
+                    b = struct.pack("<I", Network._currentFormatVersion() + 1) + good_snet[4:]
+                elif to == "optbyte":
+                    b = good_snet[:68] + bytes([good_snet[68] ^ 1]) + good_snet[69:]
+                elif to == "truncate":
+                    b = good_snet[:op["len"]]
+                    payload_ok = False
+                with open(spath, "wb") as f:
+                    f.write(b)
+                continue
+            entry = op["entry"]
+            path = {"xodr": mpath, "noext": base, "snet": spath, "upper": base + ".XODR", "other": base + ".json"}[entry]
+            before_map, before_snet = rd(mpath), rd(spath)
+            if before_snet is not None:
+                os.utime(spath, (1_000_000_000, 1_000_000_000))   # a rewrite is seen even when the bytes come out identical
+            del calls[:]
+            o = dict(op["opts"])
+            ret = None
+            try:
+                ret = Network.fromFile(path, useCache=op["useCache"], writeCache=op["writeCache"], **o)
+                outcome = "parse" if calls else "cache"
+            except Exception as e:  # noqa
+                outcome = "error:" + type(e).__name__
+            after_map, after_snet = rd(mpath), rd(spath)
+            rec = dict(op=op, path=os.path.relpath(path, workdir), dir=os.path.basename(workdir), outcome=outcome,
+                       map_digest=hashlib.blake2b(before_map).hexdigest() if before_map is not None else None,
+                       snet_hdr=before_snet[:76].hex() if before_snet is not None else None, payload_ok=payload_ok,
+                       snet_hdr_after=after_snet[:76].hex() if after_snet is not None else None,
+                       snet_changed=before_snet != after_snet or (after_snet is not None and before_snet is not None
+                                                                  and int(os.stat(spath).st_mtime) != 1_000_000_000),
+                       map_changed=before_map != after_map,
+                       files=sorted(os.listdir(workdir)), ncalls=len(calls),
+                       call_path_ok=[os.path.realpath(p) == os.path.realpath(mpath) for p, _ in calls],
+                       call_opts_ok=[sorted(kw) == sorted(o) and all(type(kw[k]) is type(o[k]) and kw[k] == o[k] for k in o) for _, kw in calls],
+                       ret_token=ret is token, ret_network=isinstance(ret, Network))
+            if out_changed(before_snet, after_snet, spath):
+                payload_ok = True    # written by dumpPickle from a real network
+            out.append(rec)
+    finally:
+        setattr(Network, "fromOpenDrive", orig)
+        shutil.rmtree(workdir, ignore_errors=True)
+    return out
+
+
 def job_export(job):
     from scenic.domains.driving.roads import Network
     from scenic.core.serialization import deterministicHash
@@ -620,6 +716,10 @@ def job_export(job):
     res["tolerance"] = parsed.tolerance
     if job.get("variants") and res["cache_written"]:
         res["cache_probes"] = cache_probes(xodr, opts, res["map_digest"], job["variants"])
+    if job.get("path_ops") and res["cache_written"]:
+        t2 = time.time()
+        res["path_history"] = path_history(xodr, opts, parsed, job["path_ops"], os.path.join(scratch, "paths.v1.d"))
+        res["path_s"] = round(time.time() - t2, 2)
     if not job.get("keep"):
         shutil.rmtree(scratch, ignore_errors=True)
     return res
